@@ -26,8 +26,8 @@ MANIFEST = {
     "note": "Ground acyclic fragment: harness/ground_util.py records the permutation the hook applied to every batch of sibling "
             "clauses (wrapper around engine_stack._verif_shuffle) and hands it to the model. "
             "Trusted: harness, hook in engine_stack.py (add-only, off by default). Known finding F1 (false NegativeCycle, "
-            "schedule dependent) is reported as KNOWN-FINDING. Second stream (harness/explore_util.py): ~1250 small cyclic "
-            "programs and the must-reject ones (~170) of 400 programs with loops through negation under 3 orders each, engine "
+            "schedule dependent) is reported as KNOWN-FINDING. Second stream (harness/explore_util.py): 860 small cyclic "
+            "programs and the must-reject ones (~130) of 300 programs with loops through negation under 3 orders each, engine "
             "outcome vs Sem with the numbers computed by enumeration of the ground formula (candidates confirmed with the full "
             "pipeline before they are reported); pinned corpus corpus/C03/schedules.json under all schedules.",
     "design_ref": "DESIGN.md §6 C03, §7",
@@ -74,10 +74,10 @@ def extra_streams(ctx):
         return False
     X.corpus_replay(ctx, drv, X.corpus_path("C03", "schedules.json"), variants, "schedules agreed")
     rng = ctx.sub_rng("cyclic-stream")
-    progs = [X.gen_tight(rng) for _ in range(ctx.budget(1100, 12000))] + [X.gen_cyclic(rng) for _ in range(ctx.budget(150, 3000))]
+    progs = [X.gen_tight(rng) for _ in range(ctx.budget(800, 6000))] + [X.gen_cyclic(rng, light=True) for _ in range(ctx.budget(60, 1000))]
     X.cheap_stream(ctx, drv, progs, [rng.randrange(1 << 30) for _ in progs], few_variants, "small-cyclic")
     rng = ctx.sub_rng("negloop-stream")
-    progs = [X.gen_negloop(rng) for _ in range(ctx.budget(400, 6000))]
+    progs = [X.gen_negloop(rng) for _ in range(ctx.budget(300, 3000))]
     X.cheap_stream(ctx, drv, progs, [rng.randrange(1 << 30) for _ in progs], few_variants, "negative-loop", cls="reject")
     return False
 
